@@ -247,6 +247,10 @@ func runC07(cw *caseWriter, tier string, seed uint64) {
 	}
 	cw.stat("c07_random_cases", cnt)
 	c07nGen(cw, tier, r)
+	// "never counted in elections and never elected": the candidate loop against scripted peers, configurations with non-voters,
+	// the server itself a non-voter (it campaigns only on TimeoutNow); monitors requestvote-sent-to-non-voter /
+	// leader-without-vote-quorum-of-voters are emitted for C07 too (c14emitMon)
+	runC14cand(cw, tier, &rng{s: seed*43 + 11})
 	// "never counted in commitment": the commitment tables (configurations x suffrage x match reports, each followed by setConfiguration calls)
 	rc := &rng{s: seed*29 + 3}
 	if tier == "quick" {
